@@ -30,6 +30,12 @@ CHECKS = {
  "C12": ("exploration", "runtime monitor of Provider.Current/Get under testing/synctest virtual time from 1..16 goroutines with the race detector; per-call oracle at the exact virtual instant plus scheduled Get probes",
          "Held on all generated call schedules over up to ~100 virtual days incl. idle gaps at every boundary (24 h, 72 h +-1 ns); race reports in net/ntske are violations.",
          "trusts testing/synctest and the race detector; validity bounds inclusive as implemented", "3/C12"),
+ "C06": ("exploration", "runtime monitor at the verif hook: transition predicates from the statement over (store snapshot, operation, reply, snapshot) on seeded sequential histories under a scripted clock, with a shadow map of every reply's true transmit time",
+         "Held on all generated histories (colliding/decreasing receive times, clock before/at/after rx, own/foreign/unknown origins, reordered and lost transmit timestamps).",
+         "hook level (build tag verif); double updates and a kernel stamp equal to the software time are outside the generated domain; updates that hit a record re-created under the same receive timestamp are not judged", "3/C06"),
+ "C07": ("exploration", "store invariants walked under the store's own lock after every operation; capacity/eviction at exactly 2^20 clients; concurrent histories under the race detector checked for linearizability with porcupine against the code's own sequential behaviour",
+         "Held on all histories: structure and ranking after every operation, eviction exactly as stated at capacity, no race report in core/server, every recorded concurrent history linearizable.",
+         "hook level; linearizability below capacity (partition by client); porcupine timeout = inconclusive; reach of the race detector = interleavings the scheduler produced (counted in the evidence)", "3/C07"),
 }
 
 NOT_APPLICABLE = {
